@@ -318,6 +318,52 @@ class Chem(object):
             v -= c * self.species_h2o(n)
         return v
 
+    def species_rows(self, name, depth=0):
+        """{balance row: atoms} of one mole of an aqueous species: a master species belongs to the row of its valence state
+        (NO3- -> N(5), N2 -> N(0) with 2 atoms, Ca+2 -> Ca), any other species is resolved through its defining reaction"""
+        name = F.canonical(name)
+        key = ("r", name)
+        if key in self._alk:
+            return self._alk[key]
+        if name in ("H2O", "H+", "e-"):
+            return {}
+        ms = [m for m in (self.db.master_of_species.get(name) or []) if m.element != "Alkalinity"]
+        if ms:
+            sec = [m for m in ms if not m.primary]
+            m = (sec or ms)[0]
+            out = {m.element: F.elements(name).get(m.base, 0.0)}
+            self._alk[key] = out
+            return out
+        sp = self.db.species.get(name) or self.db.exchange_species.get(name)
+        if sp is None or depth > 12:
+            raise KeyError(name)
+        out = {}
+        for c, n in sp.lhs:
+            F.add(out, self.species_rows(n, depth + 1), c / sp.rhs[0][0])
+        for c, n in sp.rhs[1:]:
+            F.add(out, self.species_rows(n, depth + 1), -c / sp.rhs[0][0])
+        self._alk[key] = out
+        return out
+
+    def phase_rows(self, name):
+        """{balance row: atoms released per mole of phase dissolved}, valence states kept apart (reaction as written)"""
+        p = self.phase(name)
+        out = {}
+        if isinstance(p, dbparse.Species):
+            for c, n in p.lhs:
+                F.add(out, self.species_rows(n), c)
+            return out
+        for c, n in p.rhs:
+            F.add(out, self.species_rows(n), c)
+        for c, n in p.lhs[1:]:
+            F.add(out, self.species_rows(n), -c)
+        return out
+
+    def own_redox_rows(self, element):
+        """valence-state rows of `element` that have a redox transfer of their own: all but the one of the primary master species"""
+        prim = self.db.master.get(element)
+        return [k for k, m in self.db.master.items() if m.base == element and not m.primary and (prim is None or m.species != prim.species)]
+
     def rows_of(self, element):
         rows = [k for k, m in self.db.master.items() if m.base == element and not m.primary]
         return rows or [element]
@@ -434,6 +480,20 @@ def verify(case, comps, numbers, heads, rows, printed, summary, toler, chem, ctx
             elif bad > 1e-12:
                 ctx.event("sign_within_solver_tolerance")
         # ---- (d) value inside its range
+        if rng:
+            # a phase / initial solution that is absent from the model (value 0, or |value| <= 1e-9 which the engine takes for 0) and
+            # not forced into the range calculation takes no part in it: its reported interval must contain 0 (the engine reports
+            # 0, 0).  F3 (too narrow intervals) concerns members of the model only, F2 leaves these entries untouched as well.
+            fsol = inv["force_solutions"] or []
+            for j in range(nq - 1):
+                forced = fsol[min(j, len(fsol) - 1)] if fsol else False
+                if abs(alpha[j]) <= 1.0000001e-9 and not forced and (amin[j] > 2 * tol10 or amax[j] < -2 * tol10):
+                    fail("range_absent", "%s: solution %d is not in the model (fraction %r) but its reported range is [%r, %r]" % (
+                        tag, numbers[j], alpha[j], amin[j], amax[j]))
+            for j, (p, con, force) in enumerate(inv["phases"]):
+                if abs(x[j]) <= 1.0000001e-9 and not force and (xmin[j] > 2 * tol10 or xmax[j] < -2 * tol10):
+                    fail("range_absent", "%s: phase %s is not in the model (transfer %r) but its reported range is [%r, %r]" % (
+                        tag, p, x[j], xmin[j], xmax[j]))
         if rng and range_failed and not strict:
             ctx.event("excluded:range_of_model_after_range_lp_failure")
         elif rng:
@@ -600,6 +660,40 @@ def verify(case, comps, numbers, heads, rows, printed, summary, toler, chem, ctx
                 if abs(resid) > slack:
                     fail("printed_balance", "%s: printed Input+Delta rows of %s do not balance: residual %.4e, print-precision "
                                     "slack %.2e; terms %r" % (tag, e, resid, slack, terms))
+            # valence-state rows with a redox transfer of their own (O(0), H(0), N(0), N(3), N(-3), S(-2), C(-4), Fe(3), ...):
+            #   sum_q +-alpha_q (Input+Delta)_q,row + sum_p x_p * atoms_p,row = reported redox mole transfer of the row
+            # atoms_p,row from the phase reaction as written in the text (N2(g), O2(g), H2(g): 2 atoms per mole)
+            for e in sorted(set(E) | {"O", "H"}):
+                for vr in chem.own_redox_rows(e):
+                    terms = []
+                    extra = 0.0
+                    usable = True
+                    for q in range(nq):
+                        blk = pm["sol"].get(numbers[q])
+                        if blk is None:
+                            extra += abs(alpha[q] * (comps[q].get("m_" + vr, 0.0) or 0.0))
+                            continue
+                        if vr not in blk:
+                            usable = False
+                            break
+                        terms.append((1.0 if q < nq - 1 else -1.0) * alpha[q] * blk[vr][2])
+                    if not usable:
+                        continue
+                    try:
+                        for j in range(nph):
+                            if x[j]:
+                                cj = chem.phase_rows(phases[j]).get(vr, 0.0)
+                                if cj:
+                                    terms.append(x[j] * cj)
+                    except KeyError:
+                        ctx.event("phase_rows_unknown_species")
+                        continue
+                    terms.append(-pm["redox"].get(vr, 0.0))
+                    resid = math.fsum(terms)
+                    slack = 1.2e-3 * math.fsum(abs(t) for t in terms) + extra + 2 * tol10 * (1 + nq) + 1e-9 + 1e-13
+                    if abs(resid) > slack:
+                        fail("valence_row_balance", "%s: row %s: sum(alpha*(Input+Delta)) + phase transfers - reported redox transfer = %.4e, "
+                             "print-precision slack %.2e; terms %r" % (tag, vr, resid, slack, terms))
         nz = sum(1 for v in x if abs(v) > 0)
         info["max_transfers"] = max(info["max_transfers"], nz)
         if nz >= 2:
@@ -746,7 +840,7 @@ def reformulate(case, variant):
     return c
 
 
-CONFIRM = set((os.environ.get("C18_CONFIRM") or "element_balance printed_balance delta_limit max_frac_err water_balance range_majority").split())
+CONFIRM = set((os.environ.get("C18_CONFIRM") or "element_balance printed_balance valence_row_balance delta_limit max_frac_err water_balance range_majority").split())
 
 
 def check_case(case, ctx):
